@@ -1,5 +1,6 @@
 import itertools
 import random
+import struct
 
 from pyvc.api import contract, LoopInv, Int, Bool, Bytes, ByteArray, ListOf, TupleOf, EnumOf, implies, exists, forall
 from specs.pdu import reasm, conts_ok, sizes_ok, Frags, le16
@@ -99,18 +100,22 @@ class DecodePdu:
     params = {"expected_tid": Int, "data": Bytes}
 
     def pre(expected_tid, data):
-        return 0 <= expected_tid <= 255 and len(data) >= 3
+        return 0 <= expected_tid <= 255
 
     requires = [pre]
 
+    def short(data):
+        """a fragment too short to carry control, tid and status cannot be unpacked"""
+        return len(data) < 3
+
     def bad(expected_tid, data):
         """rejected iff the transaction id differs or the status byte is not a defined status"""
-        return data[1] != expected_tid or data[2] > 6
+        return len(data) >= 3 and (data[1] != expected_tid or data[2] > 6)
 
-    raises = {ValueError: bad}
+    raises = {ValueError: bad, struct.error: short}
 
     def accepted(expected_tid, data, result):
-        return data[1] == expected_tid and data[2] <= 6 and result[0].value == data[2]
+        return len(data) >= 3 and data[1] == expected_tid and data[2] <= 6 and result[0].value == data[2]
 
     def short(data, result):
         return implies(len(data) < 5, result[1] == 0 and result[2] == b"")
@@ -125,6 +130,8 @@ class DecodePdu:
             for st in range(0, 9):
                 for tail in (b"", b"\x01", b"\x03\x00abc", b"\xff\xff" + bytes(10)):
                     yield {"expected_tid": 5, "data": bytes([2, tid, st]) + tail}
+        for d in (b"", b"\x02", b"\x02\x05"):
+            yield {"expected_tid": 5, "data": d}
 
 
 @contract("aiohomekit.pdu:decode_pdu_continuation", prop="C17")
@@ -132,18 +139,21 @@ class DecodePduContinuation:
     params = {"expected_tid": Int, "data": Bytes}
 
     def pre(expected_tid, data):
-        return 0 <= expected_tid <= 255 and len(data) >= 2
+        return 0 <= expected_tid <= 255
 
     requires = [pre]
 
+    def short(data):
+        return len(data) < 2
+
     def bad(expected_tid, data):
         """rejected iff the continuation flag (0x80) is missing or the transaction id differs"""
-        return data[0] < 128 or data[1] != expected_tid
+        return len(data) >= 2 and (data[0] < 128 or data[1] != expected_tid)
 
-    raises = {ValueError: bad}
+    raises = {ValueError: bad, struct.error: short}
 
     def accepted(expected_tid, data, result):
-        return data[0] >= 128 and data[1] == expected_tid and result == data[2:]
+        return len(data) >= 2 and data[0] >= 128 and data[1] == expected_tid and result == data[2:]
 
     ensures = [accepted]
 
